@@ -1,0 +1,92 @@
+//go:build verif
+
+package metric
+
+// Contracts (Gobra-style, comment-only) for the CVSS v2 metrics objects of this package.
+// The file adds no declarations; it is read by /verif/govc only. Spec functions (v2_base_x, near1, valid_v2_AV, ...)
+// are defined in /verif/spec; see /verif/DESIGN.md for the contract language.
+
+// ---------------------------------------------------------------------------------------------------------------
+// object invariants and validity predicates
+
+//@ pred inv_v2Base(m *Base) := m.names != nil
+//@ pred inv_v2Temporal(m *Temporal) := m.Base != nil && inv_v2Base(m.Base) && m.names != nil && m.names != m.Base.names
+//@ pred inv_v2Env(m *Environmental) := m.Temporal != nil && inv_v2Temporal(m.Temporal) && m.names != nil
+//@      && m.names != m.Temporal.names && m.names != m.Temporal.Base.names
+
+//@ pred v2BaseKnown(m *Base) := m != nil && m.AV != AccessVectorUnknown && m.AC != AccessComplexityUnknown && m.Au != AuthenticationUnknown
+//@      && m.C != ConfidentialityImpactUnknown && m.I != IntegrityImpactUnknown && m.A != AvailabilityImpactUnknown
+//@ pred v2BaseOK(m *Base) := v2BaseKnown(m) && valid_v2_AV(m.AV) && valid_v2_AC(m.AC) && valid_v2_Au(m.Au) && valid_v2_C(m.C) && valid_v2_I(m.I) && valid_v2_A(m.A)
+
+//@ pred v2TempEmpty(m *Temporal) := !m.names["E"] && !m.names["RL"] && !m.names["RC"]
+//@ pred v2TempValues(m *Temporal) := m.E != ExploitabilityInvalid && m.RL != RemediationLevelInvalid && m.RC != ReportConfidenceInvalid
+//@ pred v2TempValuesOK(m *Temporal) := v2TempValues(m) && valid_v2_E(m.E) && valid_v2_RL(m.RL) && valid_v2_RC(m.RC)
+//@ pred v2TemporalKnown(m *Temporal) := m != nil && v2BaseKnown(m.Base) && (v2TempEmpty(m) || v2TempValues(m))
+
+//@ pred v2EnvEmpty(m *Environmental) := !m.names["CDP"] && !m.names["TD"] && !m.names["CR"] && !m.names["IR"] && !m.names["AR"]
+//@ pred v2EnvValues(m *Environmental) := m.CDP != CollateralDamagePotentialInvalid && m.TD != TargetDistributionInvalid
+//@      && m.CR != ConfidentialityRequirementInvalid && m.IR != IntegrityRequirementInvalid && m.AR != AvailabilityRequirementInvalid
+//@ pred v2EnvValuesOK(m *Environmental) := v2EnvValues(m) && valid_v2_CDP(m.CDP) && valid_v2_TD(m.TD) && valid_v2_CR(m.CR) && valid_v2_IR(m.IR) && valid_v2_AR(m.AR)
+//@ pred v2EnvKnown(m *Environmental) := m != nil && v2TemporalKnown(m.Temporal) && (v2EnvEmpty(m) || v2EnvValues(m))
+
+// ---------------------------------------------------------------------------------------------------------------
+// Base
+
+//@ func (m *Base) GetError() error
+//@   requires m == nil || inv_v2Base(m)
+//@   modifies nothing
+//@   ensures[C12] v2BaseKnown(m) ==> result === nil
+//@   ensures[C12] !v2BaseKnown(m) ==> is(result, ErrNoBaseMetrics)
+
+// The base equation with ties: the result is (fp-equal to) a nearest tenth of the exact value of the FIRST equation.
+//@ func (m *Base) Score() float64
+//@   requires m == nil || inv_v2Base(m)
+//@   modifies nothing
+//@   grid 0 100
+//@   ensures[C12] !v2BaseKnown(m) ==> result === 0.0
+//@   ensures[C04,grid] v2BaseOK(m) ==> near1(result, v2_base_x(m.AV, m.AC, m.Au, m.C, m.I, m.A)) && result >= 0.0 && result <= 10.0
+//@   family base[C04,grid] when v2BaseOK(m): m.AV in v2.AV, m.AC in v2.AC, m.Au in v2.Au, m.C in v2.C, m.I in v2.I, m.A in v2.A
+
+// ---------------------------------------------------------------------------------------------------------------
+// Temporal
+
+//@ func (m *Temporal) IsEmpty() bool
+//@   requires m != nil && m.names != nil
+//@   modifies nothing
+//@   ensures result == v2TempEmpty(m)
+
+//@ func (m *Temporal) GetError() error
+//@   requires m == nil || inv_v2Temporal(m)
+//@   modifies nothing
+//@   ensures[C12] v2TemporalKnown(m) ==> result === nil
+//@   ensures[C12] !v2TemporalKnown(m) ==> result != nil
+//@   ensures[C11] m == nil ==> is(result, ErrNoTemporalMetrics)
+//@   ensures[C11] m != nil && !v2BaseKnown(m.Base) ==> is(result, ErrNoBaseMetrics)
+//@   ensures[C11] m != nil && v2BaseKnown(m.Base) && !v2TemporalKnown(m) ==> is(result, ErrNoTemporalMetrics)
+
+// kb: ghost integer with Base.Score() == tenth(kb) (or -0.0 for kb = 0).
+//@ func (m *Temporal) Score() float64
+//@   requires m == nil || inv_v2Temporal(m)
+//@   modifies nothing
+//@   grid 0 100
+//@   ensures[C12] !v2TemporalKnown(m) ==> result === 0.0
+//@   ensures[C04t,grid] m != nil && v2BaseOK(m.Base) && !v2TempEmpty(m) && v2TempValuesOK(m) ==> near1(result, v2_temporal_x(kb, m.E, m.RL, m.RC)) && result >= 0.0 && result <= real(kb) / 10.0 + 0.0
+//@   ensures[C04e,grid] m != nil && v2BaseOK(m.Base) && v2TempEmpty(m) ==> result == tenth(kb)
+//@   family temporal[C04t,grid] when m != nil && v2BaseOK(m.Base) && !v2TempEmpty(m) && v2TempValuesOK(m): m.E in v2.E, m.RL in v2.RL, m.RC in v2.RC ; replace Base.Score#0 grid 0 100 pm0 as kb
+//@   family empty[C04e,grid] when m != nil && v2BaseOK(m.Base) && v2TempEmpty(m): ; replace Base.Score#0 grid 0 100 pm0 as kb
+
+// ---------------------------------------------------------------------------------------------------------------
+// Environmental
+
+//@ func (m *Environmental) IsEmpty() bool
+//@   requires m != nil && m.names != nil
+//@   modifies nothing
+//@   ensures result == v2EnvEmpty(m)
+
+//@ func (m *Environmental) GetError() error
+//@   requires m == nil || inv_v2Env(m)
+//@   modifies nothing
+//@   ensures[C12] v2EnvKnown(m) ==> result === nil
+//@   ensures[C12] !v2EnvKnown(m) ==> result != nil
+//@   ensures[C11] m == nil ==> is(result, ErrNoEnvironmentalMetrics)
+//@   ensures[C11] m != nil && v2TemporalKnown(m.Temporal) && !v2EnvKnown(m) ==> is(result, ErrNoEnvironmentalMetrics)
